@@ -286,7 +286,7 @@ fn classify(case: &MapCase, st: &mut Stats) -> bool {
 
 pub fn run(ctx: &Ctx) -> Report {
     let mut rep = Report::new(ID, "exploration", ctx);
-    rep.rule = format!("Cases: grammar-generated mappings (up to 12 class blocks) and corpus files. Each mapping is written twice in the parent (two fresh writer invocations => differently seeded HashSet/HashMap instances), from 8 concurrently running threads, at 8 different buffer alignments, again after failed / truncated writes on the same thread, and by {CHILDREN} separately started child processes (fresh hash seeds, different allocation addresses; each child under a different environment — empty, TZ/LANG/LC_ALL, cwd=/, RUST_* variables, 200 padding variables, HOME/USER/TMPDIR/DEBUG/CI, glibc malloc perturbation — and with the mappings rotated so that the write history before a given mapping differs between children) that return digests (two 64-bit hashes + length). Oracle: all digests identical; output length == length implied by its own header. evaluations = write invocations compared. Non-trivial = distinct mappings with >=2 classes, >=3 distinct strings and >=1 by-params group of >=2 entries (so hash-ordered emission would have something to permute).");
+    rep.rule = format!("Cases: grammar-generated mappings (up to 12 class blocks), their degenerate variants (zero-length names in one slot per class block: obfuscated method names, sourceFile values, original names, obfuscated class name, arguments, foreign class), hostile token mutants (any bytes) and corpus files. Each mapping is written twice in the parent (two fresh writer invocations => differently seeded HashSet/HashMap instances), from 8 concurrently running threads, at 8 different buffer alignments, again after failed / truncated writes on the same thread, and by {CHILDREN} separately started child processes (fresh hash seeds, different allocation addresses; each child under a different environment — empty, TZ/LANG/LC_ALL, cwd=/, RUST_* variables, 200 padding variables, HOME/USER/TMPDIR/DEBUG/CI, glibc malloc perturbation — and with the mappings rotated so that the write history before a given mapping differs between children) that return digests (two 64-bit hashes + length). Oracle: all digests identical; output length == length implied by its own header. evaluations = write invocations compared. Non-trivial = distinct mappings with >=2 classes, >=3 distinct strings and >=1 by-params group of >=2 entries (so hash-ordered emission would have something to permute).");
     rep.assumptions = vec!["one platform (x86_64 Linux); endianness / pointer-width dependent ordering is out of reach".into()];
     let collected: Mutex<Vec<(Vec<u8>, String)>> = Mutex::new(Vec::new());
     rep.run_stage("tall", || tall_case(&cfg()), ctx.cases(40, 1_500), |case: &MapCase, st: &mut Stats| {
@@ -305,6 +305,28 @@ pub fn run(ctx: &Ctx) -> Report {
         if st.want_sample() && case.file.blocks.len() >= 3 {
             st.sample(|| case.sample());
         }
+        let d = check_in_process(&bytes, st)?;
+        collected.lock().unwrap().push((bytes, d));
+        Ok(())
+    });
+    // "every mapping" includes the degenerate ones: zero-length names in every slot (the string table cannot hold
+    // them, the writer still has to be deterministic and consistent with its own header), and hostile token mutants
+    rep.run_stage("degenerate", || map_case(&cfg()), ctx.cases(2500, 120_000), |case: &MapCase, st: &mut Stats| {
+        let bytes = case.file.degenerate(case.key).render(&case.render);
+        st.class("mapping with zero-length names");
+        st.nontrivial(crate::engine::fnv64(&bytes));
+        if st.want_sample() && case.file.blocks.len() >= 2 {
+            st.sample(|| json!({"degenerate mapping": crate::engine::show_bytes(&bytes[..bytes.len().min(800)])}));
+        }
+        let d = check_in_process(&bytes, st)?;
+        collected.lock().unwrap().push((bytes, d));
+        Ok(())
+    });
+    let mcfg = GenCfg { plain_sourcefile_headers: true, ..cfg() };
+    rep.run_stage("mutants", move || crate::gen::mutate::hostile_case(&mcfg), ctx.cases(2500, 120_000), |case: &crate::gen::mutate::MutCase, st: &mut Stats| {
+        let bytes = case.bytes();
+        st.class("hostile token mutant");
+        st.nontrivial(crate::engine::fnv64(&bytes));
         let d = check_in_process(&bytes, st)?;
         collected.lock().unwrap().push((bytes, d));
         Ok(())
@@ -370,6 +392,14 @@ pub fn replay(stage: &str, case: &Value) -> Check {
     let bytes = match stage {
         "ast" => {
             let c: MapCase = serde_json::from_value(case.clone()).map_err(|e| Fail::new("harness-replay", e.to_string()))?;
+            c.bytes()
+        }
+        "degenerate" => {
+            let c: MapCase = serde_json::from_value(case.clone()).map_err(|e| Fail::new("harness-replay", e.to_string()))?;
+            c.file.degenerate(c.key).render(&c.render)
+        }
+        "mutants" => {
+            let c: crate::gen::mutate::MutCase = serde_json::from_value(case.clone()).map_err(|e| Fail::new("harness-replay", e.to_string()))?;
             c.bytes()
         }
         "xproc" => unhex(case["mapping_hex"].as_str().unwrap_or("")),
